@@ -275,8 +275,46 @@ fn coq_spec_cases(expected: &[Vec<Val>], obs: &Obs, rng: &mut Rng, out: &mut Cas
     }
 }
 
+/// Class of the known finding F82: a column of a LEGACY (v1) input of a STACK merge that is multivalued there
+/// (some row with >= 2 values) and has a value-less row.
+pub fn f82_column(rows: &[Vec<Val>]) -> bool { rows.iter().any(|r| r.len() >= 2) && rows.iter().any(|r| r.is_empty()) }
+
+/// Coq cases for the multivalued columns of a small LEGACY (v1) file: Column::get_docids_for_value_range vs the
+/// model of the v1 index (docid_range_to_rowids, row scan, select_batch_in_place) and vs the list specification.
+/// Works in the mapped space of whatever numeric type the column has.
+fn legacy_multivalued_cases(v1: Vec<u8>, t: &Table, rng: &mut Rng, out: &mut CaseOut, ti: usize) {
+    let Ok(Ok(reader)) = guarded(|| ColumnarReader::open(v1)) else { return; };
+    for c in &t.cols {
+        if is_str_kind(c.kind) || c.kind == Kind::Ip || !c.rows.iter().any(|r| r.len() >= 2) { continue; }
+        let Ok(Ok(obs)) = guarded(|| -> Result<Obs, String> { let hs = reader.read_columns(&c.name).map_err(|e| e.to_string())?; observe(hs[0].open().map_err(|e| e.to_string())?) }) else { continue; };
+        if obs.card != Cardinality::Multivalued { continue; }
+        let n = obs.rows.len();
+        let mut starts: Vec<u64> = vec![0]; for r in &obs.rows { starts.push(starts.last().unwrap() + r.len() as u64); }
+        let values: Vec<u128> = obs.rows.iter().flatten().copied().collect();
+        if values.is_empty() { continue; }
+        let rows_term = cf::list(&obs.rows, |r| cf::list(r, |v| v.to_string()));
+        for _ in 0..3 {
+            let a = values[rng.below(values.len() as u64) as usize]; let b = values[rng.below(values.len() as u64) as usize];
+            let (lo, hi) = if rng.chance(1, 3) { (a, a) } else { (a.min(b), a.max(b)) };
+            let d0 = if rng.chance(2, 3) { 0 } else { rng.below(n as u64 + 1) as u32 };
+            let d1 = if rng.chance(1, 2) { n as u32 } else { rng.range(d0 as u64, n as u64) as u32 };
+            let Ok(got) = (obs.lookup)(lo, hi, d0, d1) else { continue; };
+            let desc = json!({"what": "legacy v1 multivalued column: get_docids_for_value_range", "table": ti, "column": c.name, "type": obs.ty, "lo": lo.to_string(), "hi": hi.to_string(), "docs": [d0, d1], "rows": obs.rows.iter().map(|r| r.iter().map(|v| v.to_string()).collect::<Vec<_>>()).collect::<Vec<_>>()});
+            let got_term = cf::list(&got, |x| cf::nat(*x as usize));
+            out.coq_case("tie", format!("mv1_range_tie {} {} {} {} {} {} {}", cf::ns(&starts), cf::ns(&values), lo, hi, cf::nat(d0 as usize), cf::nat(d1 as usize), got_term), desc.clone(), n >= 2);
+            out.coq_case("spec", format!("nat_list_eqb (range_lookup_in {} {} {} {} {}) {}", lo, hi, cf::nat(d0 as usize), cf::nat(d1 as usize), rows_term, got_term), desc, n >= 2);
+            out.count("legacy_v1_multivalued_lookup_cases", 1);
+        }
+    }
+}
+
 /// open every column of `bytes` and compare with `t`
 pub fn check_table(bytes: Vec<u8>, t: &Table, rng: &mut Rng, out: &mut CaseOut, ctx: Value, coq: bool) {
+    check_table_known(bytes, t, rng, out, ctx, coq, &BTreeSet::new())
+}
+
+/// `known_f82`: columns whose inputs lie in the class of the known finding F82 (see `f82_column`)
+pub fn check_table_known(bytes: Vec<u8>, t: &Table, rng: &mut Rng, out: &mut CaseOut, ctx: Value, coq: bool, known_f82: &BTreeSet<String>) {
     let r = guarded(|| -> Result<Vec<(usize, Option<Obs>)>, String> {
         let reader = ColumnarReader::open(bytes).map_err(|e| e.to_string())?;
         if reader.num_docs() as usize != t.num_docs { return Err(format!("reader.num_docs {} != {}", reader.num_docs(), t.num_docs)); }
@@ -306,7 +344,9 @@ pub fn check_table(bytes: Vec<u8>, t: &Table, rng: &mut Rng, out: &mut CaseOut, 
                     Some(o) => {
                         let fail = check_column(&c.rows, c.kind, &o, rng, out, &cctx);
                         if let Some(f) = &fail { cctx["what"] = json!(f); cctx["rows_head"] = json!(format!("{:?}", &c.rows[..c.rows.len().min(6)])); }
-                        out.spec_checked(fail.is_none(), cctx.clone());
+                        if fail.is_some() && known_f82.contains(&c.name) {
+                            cctx["known"] = json!("F82"); out.n_spec += 1; out.spec_fail.push(cctx.clone()); out.count("f82_stack_of_legacy_multivalued_with_empty_rows", 1);
+                        } else { out.spec_checked(fail.is_none(), cctx.clone()); }
                         if coq && fail.is_none() { coq_spec_cases(&c.rows, &o, rng, out, &cctx); }
                     }
                 }
@@ -322,6 +362,36 @@ pub fn section_columnar(rng: &mut Rng, out: &mut CaseOut, thorough: bool) {
                                                ColSpec { name: "corpus_i64_multi".into(), kind: Kind::I64, rows: vec![vec![Val::I(-5), Val::I(7)], vec![], vec![Val::I(-5)]] }] };
         if let Ok(bytes) = guarded(|| write_table(&t)) { check_table(bytes, &t, rng, out, json!({"what": "corpus: F81 regression column"}), true); }
     }
+    // ---- corpus: the legacy file shipped with the repository (written by an old version): `full` = row, `multi` = [row, row];
+    //      read alone, and stacked with freshly written tables before / after it
+    if let Some(legacy) = super::c08_legacy::shipped_legacy_file() {
+        let n = 65535usize;
+        let legacy_table = Table { num_docs: n, cols: vec![
+            ColSpec { name: "full".into(), kind: Kind::MixedInt, rows: (0..n).map(|r| vec![Val::U(r as u64)]).collect() },
+            ColSpec { name: "multi".into(), kind: Kind::MixedInt, rows: (0..n).map(|r| vec![Val::U(r as u64), Val::U(r as u64)]).collect() }] };
+        check_table(legacy.clone(), &legacy_table, rng, out, json!({"what": "corpus: shipped legacy v1 file"}), false);
+        for order in 0..3 {
+            let m = rng.range(1, 1500) as usize;
+            let fresh = Table { num_docs: m, cols: vec![
+                ColSpec { name: "full".into(), kind: Kind::MixedInt, rows: (0..m).map(|r| vec![Val::U(1_000_000 + r as u64)]).collect() },
+                ColSpec { name: "multi".into(), kind: Kind::MixedInt, rows: gen_rows(rng, Kind::MixedInt, m, 2, 60000) }] };
+            let inputs: Vec<(&Table, Vec<u8>)> = match order { 0 => vec![(&legacy_table, legacy.clone()), (&fresh, write_table(&fresh))], 1 => vec![(&fresh, write_table(&fresh)), (&legacy_table, legacy.clone())],
+                                                                _ => vec![(&legacy_table, legacy.clone()), (&legacy_table, legacy.clone())] };
+            let merged = Table { num_docs: inputs.iter().map(|(t, _)| t.num_docs).sum(), cols: ["full", "multi"].iter().map(|name| ColSpec { name: name.to_string(), kind: Kind::MixedInt,
+                rows: inputs.iter().flat_map(|(t, _)| t.cols.iter().find(|c| c.name == *name).unwrap().rows.iter().cloned()).collect() }).collect() };
+            let r = guarded(|| -> Result<Vec<u8>, String> {
+                let readers: Vec<ColumnarReader> = inputs.iter().map(|(_, b)| ColumnarReader::open(b.clone()).map_err(|e| e.to_string())).collect::<Result<_, _>>()?;
+                let refs: Vec<&ColumnarReader> = readers.iter().collect();
+                let mut outb = Vec::new();
+                tantivy_columnar::merge_columnar(&refs, &[], StackMergeOrder::stack(&refs).into(), &mut outb).map_err(|e| e.to_string())?;
+                Ok(outb)
+            });
+            let order_name = ["legacy,new", "new,legacy", "legacy,legacy"][order];
+            let ctx = json!({"what": "corpus: stack merge with the shipped legacy v1 file", "order": order_name, "new_rows": m});
+            match r { Ok(Ok(b)) => check_table(b, &merged, rng, out, ctx, false), r => out.spec_checked(false, json!({"what": "merge with the shipped legacy file failed", "ctx": ctx, "result": format!("{:?}", r.map(|x| x.map(|_| ())))})) }
+        }
+        out.count("corpus_shipped_legacy_file", 1);
+    } else { out.count("corpus_shipped_legacy_file_missing", 1); }
     // ---- single columnar files
     let n_tables = if thorough { 220 } else { 60 };
     for ti in 0..n_tables {
@@ -330,8 +400,18 @@ pub fn section_columnar(rng: &mut Rng, out: &mut CaseOut, thorough: bool) {
         let ncols = if big { 3 } else { rng.range(1, 6) as usize };
         let t = gen_table(rng, num_docs, ncols, "c");
         let bytes = match guarded(|| write_table(&t)) { Ok(b) => b, Err(p) => { out.spec_checked(false, json!({"what": "ColumnarWriter panicked", "panic": p, "num_docs": num_docs})); continue; } };
-        check_table(bytes, &t, rng, out, json!({"what": "columnar write/read", "table": ti}), num_docs <= 40);
+        check_table(bytes.clone(), &t, rng, out, json!({"what": "columnar write/read", "table": ti}), num_docs <= 40);
         out.count("columnar_tables", 1);
+        // the same table as a LEGACY (format v1) file: everything the property says holds whatever the format version
+        match guarded(|| super::c08_legacy::to_legacy_v1(&bytes)) {
+            Ok(Ok((v1, n_multi))) => {
+                check_table(v1.clone(), &t, rng, out, json!({"what": "columnar read of a legacy v1 file", "table": ti, "multivalued_columns": n_multi}), false);
+                if num_docs <= 40 && n_multi > 0 { legacy_multivalued_cases(v1, &t, rng, out, ti); }
+                out.count("columnar_tables_legacy_v1", 1);
+                out.count("legacy_v1_multivalued_columns", n_multi as u64);
+            }
+            r => out.spec_checked(false, json!({"what": "harness: conversion to the legacy format failed", "table": ti, "result": format!("{:?}", r.map(|x| x.map(|_| ())))})),
+        }
         if big { out.count("columnar_tables_over_65536_rows", 1); }
     }
     // ---- merges
@@ -341,10 +421,20 @@ pub fn section_columnar(rng: &mut Rng, out: &mut CaseOut, thorough: bool) {
         let big = thorough && mi % 20 == 5;
         // a shared pool of column names so that inputs have differing column sets
         let pool: Vec<(String, Kind, u64)> = (0..rng.range(1, 5)).map(|c| { let kind = KINDS[rng.below(KINDS.len() as u64) as usize]; (format!("m{}_{:?}", c, kind).to_lowercase(), kind, rng.below(4)) }).collect();
+        // every fourth merge (a stacked one, small inputs): a multivalued numeric column is always present ...
+        let pool: Vec<(String, Kind, u64)> = if mi % 4 == 0 { vec![("mlegacy_u64".to_string(), Kind::U64, 2)] } else { pool };
         let mut tables = vec![];
         for _ in 0..k {
-            let nd = if big { rng.range(30000, 70000) as usize } else if rng.chance(1, 8) { 0 } else { rng.range(1, 700) as usize };
+            let nd = if big { rng.range(30000, 70000) as usize } else if rng.chance(1, 8) { 0 } else if mi % 4 == 0 || mi % 6 == 3 { rng.range(1, 15) as usize } else { rng.range(1, 700) as usize };
             let mut cols = vec![];
+            if mi % 4 == 0 {
+                // directed: few documents, a numeric column with 0 / 1 / several values per document
+                let nd = rng.range(1, 8) as usize;
+                let rows: Vec<Vec<Val>> = (0..nd).map(|_| { let l = *rng.pick(&[0usize, 0, 1, 2, 3]); gen_vals_of_kind(rng, Kind::U64, l) }).collect();
+                cols.push(ColSpec { name: "mlegacy_u64".to_string(), kind: Kind::U64, rows });
+                tables.push(Table { num_docs: nd, cols });
+                continue;
+            }
             for (name, kind, shape) in &pool {
                 if rng.chance(1, 4) { continue; }   // column absent from this input
                 let shape = if rng.chance(1, 3) { rng.below(4) } else { *shape };
@@ -370,9 +460,13 @@ pub fn section_columnar(rng: &mut Rng, out: &mut CaseOut, thorough: bool) {
         let merged = Table { num_docs: mapping.len(), cols: names.iter().map(|(name, kind)| ColSpec {
             name: name.clone(), kind: *kind,
             rows: mapping.iter().map(|&(s, r)| tables[s].cols.iter().find(|c| &c.name == name).map(|c| c.rows[r].clone()).unwrap_or_default()).collect() }).collect() };
-        let ctx = json!({"what": "merge_columnar", "order": if stacked { "stack" } else { "shuffled" }, "inputs": tables.iter().map(|t| t.num_docs).collect::<Vec<_>>(), "merge": mi, "rows_out": mapping.len()});
+        // each input is a file of the current format or a legacy (v1) file, at any position of the merge
+        let mut legacy_input: Vec<bool> = (0..k).map(|_| rng.chance(1, 2)).collect();
+        if mi % 4 == 0 { let j = rng.below(k as u64) as usize; legacy_input[j] = true; }     // ... and some input is a legacy file
+        if legacy_input.iter().skip(1).any(|&l| l) { out.count("merges_with_legacy_input_not_first", 1); }
+        let ctx = json!({"what": "merge_columnar", "order": if stacked { "stack" } else { "shuffled" }, "inputs": tables.iter().map(|t| t.num_docs).collect::<Vec<_>>(), "legacy_v1_input": legacy_input, "merge": mi, "rows_out": mapping.len()});
         let r = guarded(|| -> Result<Vec<u8>, String> {
-            let files: Vec<Vec<u8>> = tables.iter().map(write_table).collect();
+            let files: Vec<Vec<u8>> = tables.iter().zip(&legacy_input).map(|(t, &leg)| { let b = write_table(t); if leg { super::c08_legacy::to_legacy_v1(&b).expect("legacy conversion").0 } else { b } }).collect();
             let readers: Vec<ColumnarReader> = files.into_iter().map(|b| ColumnarReader::open(b).map_err(|e| e.to_string())).collect::<Result<_, _>>()?;
             let refs: Vec<&ColumnarReader> = readers.iter().collect();
             let order: MergeRowOrder = if stacked { StackMergeOrder::stack(&refs).into() } else {
@@ -387,7 +481,31 @@ pub fn section_columnar(rng: &mut Rng, out: &mut CaseOut, thorough: bool) {
             Err(p) => out.spec_checked(false, json!({"what": "merge_columnar panicked", "ctx": ctx, "panic": p})),
             Ok(Err(e)) => out.spec_checked(false, json!({"what": "merge_columnar failed", "ctx": ctx, "error": e})),
             Ok(Ok(bytes)) => {
-                check_table(bytes, &merged, rng, out, ctx, mapping.len() <= 40);
+                let mut known_f82: BTreeSet<String> = BTreeSet::new();
+                if stacked { for (t, &leg) in tables.iter().zip(&legacy_input) { if leg { for c in &t.cols { if f82_column(&c.rows) { known_f82.insert(c.name.clone()); } } } } }
+                let bytes_copy = bytes.clone();
+                check_table_known(bytes, &merged, rng, out, ctx, mapping.len() <= 40, &known_f82);
+                // tie: the model of the stacked merge of column INDEXES with legacy inputs (pinned flags), read back, vs the merged column
+                if stacked && mapping.len() <= 60 && tables.iter().all(|t| t.num_docs >= 1) && legacy_input.iter().any(|&l| l) {
+                    if let Ok(Ok(reader)) = guarded(|| ColumnarReader::open(bytes_copy.clone())) {
+                        for (name, kind) in &names {
+                            if is_str_kind(*kind) || *kind == Kind::Ip { continue; }
+                            let per_input: Vec<Vec<Vec<Val>>> = tables.iter().map(|t| t.cols.iter().find(|c| &c.name == name).map(|c| c.rows.clone()).unwrap_or_else(|| vec![vec![]; t.num_docs])).collect();
+                            if !per_input.iter().zip(&legacy_input).any(|(rows, &l)| l && rows.iter().any(|r| r.len() >= 2)) { continue; }
+                            let Ok(Ok(obs)) = guarded(|| -> Result<Obs, String> { let hs = reader.read_columns(name).map_err(|e| e.to_string())?; if hs.len() != 1 { return Err("handles".into()); } observe(hs[0].open().map_err(|e| e.to_string())?) }) else { continue; };
+                            // the values in merged order, mapped to the merged column's type; positions only matter for the index
+                            let mapped_inputs: Option<Vec<Vec<Vec<u128>>>> = per_input.iter().map(|rows| rows.iter().map(|r| r.iter().map(|v| to_mapped(v, obs.ty)).collect::<Option<Vec<u128>>>()).collect::<Option<Vec<_>>>()).collect();
+                            let Some(mapped_inputs) = mapped_inputs else { continue; };
+                            let inputs_term = cf::list(&mapped_inputs.iter().zip(&legacy_input).collect::<Vec<_>>(), |(rows, &l)| {
+                                let code = if rows.iter().all(|r| r.is_empty()) { 0 } else if rows.iter().all(|r| r.len() == 1) { 1 } else if rows.iter().all(|r| r.len() <= 1) { 2 } else { 3 };
+                                format!("({}, {}, {})", cf::boolean(l), code, cf::list(rows, |r| cf::list(r, |v| v.to_string()))) });
+                            let impl_rows = cf::list(&obs.rows, |r| cf::list(r, |v| v.to_string()));
+                            out.coq_case("tie", format!("v1_stack_tie {} {}", inputs_term, impl_rows),
+                                         json!({"what": "stack merge with legacy v1 inputs: merged multivalued index vs model", "merge": mi, "column": name, "legacy_v1_input": legacy_input, "inputs": tables.iter().map(|t| t.num_docs).collect::<Vec<_>>(), "in_f82_class": known_f82.contains(name)}), mapping.len() >= 2);
+                            out.count("legacy_v1_stack_tie_cases", 1);
+                        }
+                    }
+                }
                 // spec of the merge itself, in Coq, for small u64 inputs
                 if mapping.len() <= 30 && tables.iter().all(|t| t.num_docs <= 30) {
                     for (name, kind) in &names {
